@@ -74,7 +74,33 @@ macro_rules! binop_forms {
     }};
 }
 
+/// a library panic outside the guarded forms (building the ring, computing a hint) must not take the driver down:
+/// the case is then logged with one panicking form
 fn run_case(log: &mut Log, op: &str, m: &UBig, a: &IBig, b: &IBig, e: &UBig, m2: &UBig, src: &str) {
+    let r = guarded(|| {
+        let mut sink: Vec<Value> = Vec::new();
+        run_case_inner(&mut sink, op, m, a, b, e, m2, src);
+        sink
+    });
+    match r {
+        Ok(evs) => {
+            for ev in evs {
+                log.ev(ev);
+            }
+        }
+        Err(msg) => {
+            let mut outs = Outs::new();
+            outs.push("driver", Err(msg));
+            let mut ev = json!({"prop": "C13", "op": op, "src": src, "m": enc_u(m), "a": enc_i(a), "b": enc_i(b), "e": enc_u(e)});
+            if op == "mix" {
+                ev["m2"] = enc_u(m2);
+            }
+            ev["outs"] = outs.grouped();
+            log.ev(ev);
+        }
+    }
+}
+fn run_case_inner(log: &mut Vec<Value>, op: &str, m: &UBig, a: &IBig, b: &IBig, e: &UBig, m2: &UBig, src: &str) {
     let mut outs = Outs::new();
     let mut ev = json!({"prop": "C13", "op": op, "src": src, "m": enc_u(m), "a": enc_i(a), "b": enc_i(b), "e": enc_u(e)});
     if op == "mix" {
@@ -94,7 +120,7 @@ fn run_case(log: &mut Log, op: &str, m: &UBig, a: &IBig, b: &IBig, e: &UBig, m2:
         outs.push("div_assign", guarded(|| { let mut x = r1.reduce(a.clone()); x /= r2.reduce(b.clone()); res(&x) }));
         outs.push("eq", guarded(|| json!({"r": enc_u(&ubig_from_bytes(&[(r1.reduce(a.clone()) == r2.reduce(b.clone())) as u8]))})));
         ev["outs"] = outs.grouped();
-        log.ev(ev);
+        log.push(ev);
         return;
     }
     let ring = ConstDivisor::new(m.clone());
@@ -142,9 +168,9 @@ fn run_case(log: &mut Log, op: &str, m: &UBig, a: &IBig, b: &IBig, e: &UBig, m2:
         }
         "div" => {
             binop_forms!(outs, ring, a, b, /, /=);
-            let y = ring.reduce(b.clone());
-            let g = guarded(|| Gcd::gcd(y.residue(), m.clone())).unwrap_or(UBig::ZERO);
-            let binv = guarded(|| opt(&y.inv())).unwrap_or(json!({"some": 0, "x": enc_u(&UBig::ZERO)}));
+            // the hints are computed under the same guard as the forms: a library panic is data, not a driver crash
+            let g = guarded(|| Gcd::gcd(ring.reduce(b.clone()).residue(), m.clone())).unwrap_or(UBig::ZERO);
+            let binv = guarded(|| opt(&ring.reduce(b.clone()).inv())).unwrap_or(json!({"some": 0, "x": enc_u(&UBig::ZERO)}));
             ev["hint"] = json!({"g": enc_u(&g), "binv": binv});
         }
         "neg" => {
@@ -183,14 +209,13 @@ fn run_case(log: &mut Log, op: &str, m: &UBig, a: &IBig, b: &IBig, e: &UBig, m2:
                     None => json!({"some": 0, "x": enc_u(&UBig::ZERO)}),
                 }));
             }
-            let x = ring.reduce(a.clone());
-            let g = guarded(|| Gcd::gcd(x.residue(), m.clone())).unwrap_or(UBig::ZERO);
+            let g = guarded(|| Gcd::gcd(ring.reduce(a.clone()).residue(), m.clone())).unwrap_or(UBig::ZERO);
             ev["hint"] = json!({"g": enc_u(&g)});
         }
         other => panic!("unknown op {}", other),
     }
     ev["outs"] = outs.grouped();
-    log.ev(ev);
+    log.push(ev);
 }
 
 // ---------------------------------------------------------------- seeded random driver
